@@ -9,6 +9,7 @@ import (
 	"path/filepath"
 	"sort"
 	"strconv"
+	"strings"
 	"testing"
 
 	"github.com/google/uuid"
@@ -347,6 +348,54 @@ func (w *apiWorld) checkState(m *model.Collection, pool []uuid.UUID, byId []uuid
 	for id := range m.Docs {
 		if !seen[id.String()] {
 			return fmt.Errorf("stored point %s is not returned by the read of the whole pool", id)
+		}
+	}
+	// the same read with a select list that names top-level fields, one of them twice
+	keySet := map[string]bool{}
+	for _, d := range m.Docs {
+		for k := range d {
+			if !strings.Contains(k, ".") && k != "" {
+				keySet[k] = true
+			}
+		}
+	}
+	var keys []string
+	for k := range keySet {
+		keys = append(keys, k)
+	}
+	sort.Strings(keys)
+	if len(keys) > 3 {
+		keys = keys[:3]
+	}
+	if len(keys) > 0 {
+		sel := append(append([]string{}, keys...), keys[0])
+		r := w.send("POST", "/v2/collections/col/points/search", map[string]any{"query": map[string]any{"property": "_id", "stringArray": map[string]any{"value": all, "operator": "containsAny"}}, "select": sel, "limit": 100})
+		if r.Status != 200 {
+			return fmt.Errorf("read with select %v answered %d %.300s", sel, r.Status, r.Body)
+		}
+		body, err := decodeNumbers(r.Body)
+		if err != nil {
+			return err
+		}
+		pts, _ := body["points"].([]any)
+		if len(pts) != len(m.Docs) {
+			return fmt.Errorf("read with select %v returns %d points, %d are stored", sel, len(pts), len(m.Docs))
+		}
+		for _, p := range pts {
+			row, _ := p.(map[string]any)
+			id, err := uuid.Parse(fmt.Sprint(row["_id"]))
+			if err != nil {
+				return fmt.Errorf("a returned point carries the id %v", row["_id"])
+			}
+			want := map[string]any{}
+			for _, k := range keys {
+				if v, ok := m.Docs[id][k]; ok {
+					want[k] = v
+				}
+			}
+			if !sameValue(want, stripReserved(row)) {
+				return fmt.Errorf("select %v of %s gives %v, the stored document has %s", sel, id, stripReserved(row), model.Show(want))
+			}
 		}
 	}
 	for _, id := range byId {
